@@ -74,6 +74,47 @@ class PairJob:
         return r
 
 
+class TraceJob:
+    """Binding 2: a random history recorded from the real code and validated by TLC (TraceV.tla)."""
+
+    def __init__(self, ptype, profile="full", runs=4, events=400, salt=0):
+        self.ptype, self.profile, self.runs, self.events, self.salt = ptype, profile, runs, events, salt
+
+    def tag(self):
+        return f"{self.ptype}_{self.profile}_{self.salt}"
+
+    def run(self, binpath):
+        sd = vlib.seed() * 1000 + self.salt
+        info = vlib.record_trace(binpath, self.tag(), self.ptype, self.profile, self.runs, self.events, sd)
+        if info.get("diverged"):
+            return dict(info, lines=0, lines_ok=0, rejections=[], diverged=True)
+        res = vlib.validate_trace(info)
+        res["per_action"] = info.get("per_action")
+        res["max_entries"] = info.get("max_entries")
+        res["seed"] = sd
+        # keep one sample line, drop the bulky files
+        try:
+            with open(info["trace"]) as f:
+                ls = f.readlines()
+            res["sample"] = json.loads(ls[min(len(ls) - 1, 7)])
+        except Exception:
+            res["sample"] = None
+        import shutil
+        shutil.rmtree(info["dir"], ignore_errors=True)
+        return res
+
+
+def trace_jobs(prop, tier):
+    q = tier == "quick"
+    pair_props = ("C05", "C06", "C07", "C08", "C19")
+    prof = "pairs" if prop in pair_props else ("viewmut" if prop == "C04" else "full")
+    if q:
+        ts = ["u32", "Ipv6Net", "u8", "Ipv4Inet"]
+        return [TraceJob(t, prof, runs=4, events=300, salt=i) for i, t in enumerate(ts)]
+    return [TraceJob(t, prof, runs=10, events=1500, salt=i) for i, t in enumerate(ALL_TYPES)] + \
+           [TraceJob(t, "core", runs=6, events=3000, salt=100 + i) for i, t in enumerate(["u32", "u128", "Ipv4Net"])]
+
+
 def targets(types, colls=("map",), ctxs=("plain",)):
     return [(t, c, x) for t in types for c in colls for x in ctxs]
 
@@ -164,7 +205,9 @@ def run_check(prop, tier):
         raise built["err"]
     binpath = built["bin"]
     reports = []
+    tjobs = trace_jobs(prop, tier) if prop in TRACE_PROPS else []
     with cf.ThreadPoolExecutor(max_workers=8) as ex:
+        tfuts = [ex.submit(tj.run, binpath) for tj in tjobs]
         futs = []
         for j, r in zip(jobs, tlc_results):
             for (t, c, x) in j.targets:
@@ -172,16 +215,33 @@ def run_check(prop, tier):
                                       cmdname=getattr(j, "replay_cmd", "replay")))
         for f in futs:
             reports.append(f.result())
+        traces = [f.result() for f in tfuts]
     for r in tlc_results:
         try:
             os.remove(r["rows_file"])
         except OSError:
             pass
-    return conclude(prop, tier, t0, jobs, tlc_results, reports)
+    return conclude(prop, tier, t0, jobs, tlc_results, reports, traces)
 
 
-def conclude(prop, tier, t0, jobs, tlc_results, reports):
+TRACE_PROPS = {"C01", "C02", "C03", "C04", "C05", "C06", "C07", "C08", "C09", "C10", "C11", "C12", "C13", "C15", "C16",
+               "C18", "C19"}
+
+
+def conclude(prop, tier, t0, jobs, tlc_results, reports, traces=()):
     mine, foreign = [], 0
+    for tr in traces:
+        if tr.get("diverged"):
+            raise ToolError(f"trace driver on {tr.get('ptype')} did not terminate")
+        for rej in tr["rejections"]:
+            for mm in vlib.trace_mismatches(rej):
+                mm = dict(mm, ptype=tr["ptype"], coll="trace:" + str(tr["profile"]), ctx="plain", engine="trace")
+                if prop in vlib.owners(mm):
+                    mine.append(mm)
+                else:
+                    foreign += 1
+                    if os.environ.get("VERIF_DEBUG"):
+                        log("foreign trace mismatch", sorted(vlib.owners(mm)), json.dumps(mm)[:1200])
     for rep in reports:
         if rep.get("diverged"):
             if prop == "C20":
@@ -198,7 +258,7 @@ def conclude(prop, tier, t0, jobs, tlc_results, reports):
                 foreign += 1
                 if os.environ.get("VERIF_DEBUG") and foreign <= 5:
                     log("foreign mismatch", sorted(vlib.owners(mm)), json.dumps({k: mm.get(k) for k in ("kind", "ptype", "coll", "h", "e", "expected", "got")})[:1500])
-    executed = sum(r.get("executed", 0) for r in reports)
+    executed = sum(r.get("executed", 0) for r in reports) + sum(t.get("lines_ok", 0) for t in traces)
     per_action = {}
     for r in reports:
         for k, v in r.get("per_action", {}).items():
@@ -222,6 +282,10 @@ def conclude(prop, tier, t0, jobs, tlc_results, reports):
                              skipped_host=r.get("skipped_host"), skipped_unsupported=r.get("skipped_unsupported"),
                              pre_failed=r.get("pre_failed"), mismatches=r.get("mismatch_count")) for r in reports],
         rows_executed_per_action=per_action,
+        traces=[dict(ptype=t["ptype"], profile=t["profile"], seed=t.get("seed"), lines=t["lines"], lines_accepted=t["lines_ok"],
+                     rejections=len(t["rejections"]), per_action=t.get("per_action"), max_entries=t.get("max_entries"),
+                     sample_line=t.get("sample")) for t in traces],
+        trace_lines_validated_by_tlc=sum(t.get("lines_ok", 0) for t in traces),
         disagreements_owned_by_other_properties=foreign,
         rule="every transition TLC generates in the bounded universe is executed on the real code "
              "(path replay through the public API, then the event) and compared field by field",
@@ -243,7 +307,7 @@ def conclude(prop, tier, t0, jobs, tlc_results, reports):
             continue
         seen.add(key)
         viol += 1
-        path = vlib.write_replay(prop, dict(property=prop, engine="table", ptype=mm["ptype"], coll=mm["coll"],
+        path = vlib.write_replay(prop, dict(property=prop, engine=mm.get("engine", "table"), ptype=mm["ptype"], coll=mm["coll"],
                                             ctx=mm["ctx"], kind=mm["kind"], steps=mm.get("h", []), event=mm["e"],
                                             expected=mm.get("expected"), observed=mm.get("got"), row=mm.get("row")))
         print(f"VIOLATION property={prop} replay={path}")
